@@ -309,6 +309,9 @@ func init() {
 		if tier == "thorough" {
 			realSocketCuts(seed, res)
 		}
+		if err := reconnectHistories(tier, seed, res); err != nil {
+			return err
+		}
 		if err := compareServer("srv", srvCases, res); err != nil {
 			return err
 		}
